@@ -388,7 +388,10 @@ theorem inv_gstep (hK : K.Laws) (h : Inv K parseOk s) (o : Op) (hok : o.pipeName
   by_cases he : enabled parseOk s o = true
   · rw [if_pos he]
     cases o with
-    | newPartition tags src => exact inv_newPartition h tags src (by simpa [enabled] using he)
+    | newPartition tags src =>
+      have hp : parseOk tags = true := by
+        simp only [enabled, Bool.and_eq_true] at he; exact he.1.1
+      exact inv_newPartition h tags src hp
     | write src pieces => exact inv_write h src pieces (by simpa [enabled] using he)
     | dropChunks src n => exact inv_dropChunks h src n
     | dropPartition src => exact inv_dropPartition h src
